@@ -966,3 +966,39 @@ Qed.
 Lemma report_holder_can_step s i t :
   nth_error (w_thr s) i = Some t -> (exists r, t = WHold r) \/ t = WSet -> wstep s i <> None.
 Proof. intros Hi [[r ->]| ->]; unfold wstep; rewrite Hi; discriminate. Qed.
+
+(* Wait cannot return while some thread -- a caller-side Flush included, whether or not a background flusher
+   still exists -- is between wg.Add(1) and wg.Done() *)
+Lemma wait_blocked_while_entered cf s i snap t : reachable cf s ->
+  nth_error (s_threads s) i = Some (TW3 snap) -> In t (s_threads s) -> entered t = 1%nat ->
+  step cf s (LT i AGo) = None.
+Proof.
+  intros R Hi Hin He. destruct (step cf s (LT i AGo)) as [s'|] eqn:E; [|reflexivity].
+  pose proof (wait_return_none_entered cf s i snap s' R Hi E t Hin). lia.
+Qed.
+
+(* the flusher has retired (guarded = false, goroutine finished) while a caller-side Flush is still executing *)
+Definition retire_cfg : config := mkcfg false 3 (fun _ => 0) 1000000000.
+Definition retire_sched : list label :=
+  [LT 0 (ACall (OAdd 1)); LT 0 AGo; LT 0 AGo; LT 0 AGo;          (* Add(1) returns; flusher = thread 3 *)
+   LT 3 AGo;                                                     (* flusher at its select *)
+   LT 1 (ACall OFlush); LT 1 AGo; LT 1 AGo; LT 1 AGo;            (* caller 1: Flush, now about to Execute [1] *)
+   LAdvance 11000000000;
+   LT 3 ASelTick; LT 3 AGo; LT 3 AGo; LT 3 AGo; LT 3 AGo; LT 3 AGo;   (* tick: Flush() of nothing *)
+   LT 3 AGo; LT 3 AGo; LT 3 AGo;                                 (* shallQuit: idle too long, inflight = 0: quit *)
+   LT 3 AGo; LT 3 AGo; LT 3 AGo; LT 3 AGo; LT 3 AGo; LT 3 AGo;   (* ticker.Stop, deferred Flush; goroutine ends *)
+   LT 2 (ACall OWait); LT 2 AGo; LT 2 AGo; LT 2 AGo; LT 2 AGo; LT 2 AGo; LT 2 AGo].  (* caller 2: Wait, at wg.Wait *)
+
+Lemma wait_after_retire_witness :
+  exists s, run retire_cfg retire_sched (init 3 0) = Some s /\
+    s_guarded s = false /\ nth_error (s_threads s) 3 = Some TDead /\
+    nth_error (s_threads s) 1 = Some (TFl KRet (L4 [1%nat])) /\
+    nth_error (s_threads s) 2 = Some (TW3 [1%nat]) /\
+    step retire_cfg s (LT 2 AGo) = None /\
+    exists s', run retire_cfg [LT 1 AGo; LT 1 AGo; LT 2 AGo] s = Some s' /\
+      s_executed s' = [[1%nat]] /\ nth_error (s_threads s') 2 = Some TIdle.
+Proof.
+  eexists. split; [vm_compute; reflexivity|].
+  repeat (split; [vm_compute; reflexivity|]).
+  eexists. split; [vm_compute; reflexivity|]. split; vm_compute; reflexivity.
+Qed.
